@@ -235,7 +235,7 @@ Proof.
 Qed.
 
 (* ---------------- ResizingOperator (C16) ---------------- *)
-From Verif Require C16.Syntax Gen.Padding C16.Model C16.ModelNd C16.PNd C16.PNd3.
+From Verif Require C16.Syntax Gen.Padding C16.Model C16.ModelNd C16.PNd C16.PNd3 C16.PComm3.
 
 Lemma config_ok_len (rm : C16.Syntax.pmode) ish osh offs : C16.ModelNd.config_ok rm ish osh offs = true ->
   length ish = length osh /\ length ish = length offs.
@@ -262,14 +262,14 @@ Proof.
     rewrite (C16.PNd.sep_adjoint rm 1 ish osh offs x y) by (try assumption; lia). reflexivity.
 Qed.
 
-(* ResizingOperator and the operator the code returns as its adjoint (same axis order, axis 0 first):
-   at most one axis is resized *)
+(* ResizingOperator and the operator the code returns as its adjoint (same axis order, axis 0 first, in
+   both directions): ANY number of resized axes (C16.PComm3: the axis order is immaterial) *)
 Lemma leaf_ok_resize (c : R) (rm : C16.Syntax.pmode) ish osh offs :
-  C16.ModelNd.config_ok rm ish osh offs = true -> C16.PNd3.at_most_one ish osh offs = true ->
+  C16.ModelNd.config_ok rm ish osh offs = true ->
   leaf_ok (LResize (repeat c (prodn ish)) (repeat c (prodn osh)) rm ish osh offs) /\
   leaf_ok (LResizeAdj (repeat c (prodn osh)) (repeat c (prodn ish)) rm ish osh offs).
 Proof.
-  intros Hc H1. destruct (config_ok_len _ _ _ _ Hc) as [L1 L2].
+  intros Hc. destruct (config_ok_len _ _ _ _ Hc) as [L1 L2].
   assert (Hp : adj_pair (repeat c (prodn ish)) (repeat c (prodn osh))
                  (eval_leaf (LResize (repeat c (prodn ish)) (repeat c (prodn osh)) rm ish osh offs))
                  (eval_leaf (LResizeAdj (repeat c (prodn osh)) (repeat c (prodn ish)) rm ish osh offs))).
@@ -281,7 +281,7 @@ Proof.
     - intros x y Hx Hy. cbn [eval_leaf]. change (@nzero R Num_R) with 0.
       rewrite !cinner_const_R;
         [| assumption | rewrite C16.PNd3.sep_loop_length by (try assumption; lia); lia].
-      rewrite (C16.PNd3.sep_adjoint_single_axis rm 1 ish osh offs x y) by (try assumption; lia). reflexivity. }
+      rewrite (C16.PComm3.sep_adjoint_code_order rm 1 ish osh offs x y) by (try assumption; lia). reflexivity. }
   split; (split; [|split; reflexivity]); cbn [leaf_dom leaf_ran leaf_adjoint].
   - exact Hp.
   - apply (adj_pair_sym cring_ok_R); [apply vconj_R | apply vconj_R | exact Hp].
